@@ -44,6 +44,9 @@ def obligations(tier):
     # the same definitions over the buckets of a collapsing timeframe that is fed live (one raw candle per append)
     for name, kw, n in (("MACD", dict(fast_period=2, slow_period=3, signal_period=2), 10), ("ROC", dict(period=2), 8), ("OBV", dict(), 6), ("STOCH", dict(period=2, slow_period=2, smoothing_k=2), 8), ("RSI", dict(period=2), 8), ("TSI", dict(period=2, smooth_period=2), 10)) + ((("RSI", dict(period=3), 10),) if tier == "thorough" else ()):
         obs.append(Ob(f"live-T2-feed/{name}{kw}/n={n}", dict(spec=["ind", name, kw], n=n, feed="live-T2"), NL, weight=n * 3, budget_s=300 if tier == "quick" else 2400, max_paths=100000))
+    # a member swapped for one of the same name that reads another input (remove_indicator + add_indicator)
+    for name, kw, n in (("MACD", dict(fast_period=2, slow_period=3, signal_period=2), 7), ("ROC", dict(period=2), 5), ("TSI", dict(period=2, smooth_period=2), 6)):
+        obs.append(Ob(f"swap-input/{name}{kw}/close->open/n={n}", dict(spec=["ind", name, kw], n=n, input="open"), NL, fn="run_swap", weight=n * 3, budget_s=300))
     return obs
 
 
